@@ -97,7 +97,13 @@ pub fn run() {
                 _ => {
                     let nb = obs == "try";
                     loop {
-                        let r = if nb { rx.try_recv() } else { rx.recv() };
+                        let r = if nb {
+                            rx.try_recv()
+                        } else if obs == "timeout" {
+                            rx.try_recv_timeout(std::time::Duration::from_millis(400))
+                        } else {
+                            rx.recv()
+                        };
                         match r {
                             Ok((d, mut ch, _)) => {
                                 for c in ch.iter_mut() {
